@@ -598,6 +598,8 @@ func containsStr(xs []string, x string) bool {
 	return false
 }
 
+func (e *Engine) LookupPred(pkg, name string) *PredDef { return e.lookupPred(pkg, name) }
+
 // lookupPred finds a pred/spec by name, first in pkg then anywhere.
 func (e *Engine) lookupPred(pkg, name string) *PredDef {
 	if p, ok := e.Preds[pkg+"."+name]; ok {
